@@ -459,10 +459,18 @@ func (p *printer) writeCommentPrefix(pos, next token.Position, prev *ast.Comment
 
 		// determine number of linebreaks before the comment
 		n := 0
+		fuse := false
 		if pos.IsValid() && p.last.IsValid() {
 			n = pos.Line - p.last.Line
-			if n < 0 { // should never happen
+			if n < 0 {
+				// The comment precedes (in the source) an item that has been
+				// printed already. This happens for items that are printed
+				// without position information (e.g. the name of $name).
+				// If no line break gets written below, separate the comment
+				// from the last item with a blank: a '/' directly followed by
+				// "//c" or "/*c*/" would otherwise read "///c" or "//*c*/".
 				n = 0
+				fuse = true
 			}
 		}
 
@@ -485,6 +493,8 @@ func (p *printer) writeCommentPrefix(pos, next token.Position, prev *ast.Comment
 			// this is analogous to using formfeeds to separate
 			// individual lines of /*-style comments
 			p.writeByte('\f', nlimit(n))
+		} else if fuse {
+			p.writeByte(' ', 1)
 		}
 	}
 }
